@@ -20,3 +20,12 @@ Definition dcase_spec_ok (c : dcase) : bool :=
             && all2 (fun k g => closeb (dc_rt c) (dc_at c) g (spec_covgrad n k (dc_gs c) (dc_ops c)))
                     (seq 0 (List.length (c_grad cv))) (c_grad cv))
           (o_covs (dc_impl c)) (all_cov_names (dc_ops c)).
+
+(* the same without the replica means: results of fits and root finders carry replica means rescaled linearly from
+   their first input (fits.py / roots.py), which no property constrains *)
+Definition dcase_spec_core (c : dcase) : bool :=
+  spec_judge (dc_rt c) (dc_at c) (dc_ops c) (dc_val c) (dc_gs c) (dc_impl c)
+  && all2 (fun cv n => String.eqb (c_name cv) n
+            && all2 (fun k g => closeb (dc_rt c) (dc_at c) g (spec_covgrad n k (dc_gs c) (dc_ops c)))
+                    (seq 0 (List.length (c_grad cv))) (c_grad cv))
+          (o_covs (dc_impl c)) (all_cov_names (dc_ops c)).
